@@ -396,10 +396,17 @@ def sec_units(rec, patches=None):
                 rec.fact(f"units[{entry}]/loader{k}/quaternion-of-molecule-k", okq, key="C01/units/quaternion", detail={})
 
 
+def sec_sampling_rule(rec, patches=None):
+    """the sub-volume handed to the model is the tomogram sampled on the molecule's grid, also when the crop window crosses a face of the tomogram (executed by C02's sampling section)"""
+    from .c02 import sec_sampling
+
+    sec_sampling(rec, order=1, corner_safe=False, patches=patches)
+
+
 def sections(tier):
     R = rotation.R30
     pairs = [(R[9], R[10]), (R[0], R[12]), (R[1], R[4])] if quick(tier) else [(R[i], R[(i * 7 + 3) % 30]) for i in range(30)]
-    S = [("units", "checks.c01", "sec_units", {})]
+    S = [("units", "checks.c01", "sec_units", {}), ("sampling-rule", "checks.c01", "sec_sampling_rule", {})]
     for entry in ("single", "multi", "group"):
         ps = pairs if entry == "single" else pairs[:1] if quick(tier) else pairs[:6]
         for k, pr in enumerate(ps):
